@@ -26,9 +26,9 @@ func init() {
 		Assumptions: []string{"reflection-based canon with normal forms N1, N2, N6 only; instants compared at nanosecond precision by time.Equal"},
 		Bound: func(tier string) string {
 			if tier == "thorough" {
-				return "levels 0,1,2(q),saturated; depth 2 over all shapes at every item position; plus the scale dimension of C01 (boundary-length strings, lists of 17/33/65, large integers, empty neighbours, shared identities)"
+				return "levels 0,1,2(q),saturated; depth 2 over all shapes at every item position; plus the scale dimension of C01 (boundary-length strings, lists of 17/33/65, large integers, empty neighbours, shared identities); IRI forms, generic type names and list forms as in C01"
 			}
-			return "levels 0,1,saturated; depth 2 over q shapes at every item position (package entry); plus the scale dimension of C01 (boundary-length strings, lists of 17/33/65, large integers, empty neighbours, shared identities)"
+			return "levels 0,1,saturated; depth 2 over q shapes at every item position (package entry); plus the scale dimension of C01 (boundary-length strings, lists of 17/33/65, large integers, empty neighbours, shared identities); IRI forms, generic type names and list forms as in C01"
 		},
 		DeadlineQuick: 6 * time.Minute, DeadlineThorough: 45 * time.Minute,
 		Run: c03Run,
